@@ -477,10 +477,37 @@ def translate_penalize(fn):
     return [mdef, rdef]
 
 
+def translate_flatten_dofs(fn):
+    """_flatten_dofs: ndarray -> itself, DofsView -> .flatten(), dict of views -> np.unique(np.concatenate(flattened views))"""
+    body = _body(fn)
+    if [a.arg for a in fn.args.args] != ['S'] or len(body) != 3:
+        raise TranslateError('_flatten_dofs shape')
+    _expect(body[0], 'if S is None:\n    return None', '_flatten_dofs None')
+    br = body[1]
+    tests = []
+    while isinstance(br, ast.If):
+        tests.append((t2.src(br.test), br.body))
+        br = br.orelse[0] if len(br.orelse) == 1 else None
+    if [x[0] for x in tests] != ['isinstance(S, ndarray)', 'isinstance(S, DofsView)', 'isinstance(S, dict)']:
+        raise TranslateError('_flatten_dofs branches ' + repr([x[0] for x in tests]))
+    _expect(tests[0][1][0], 'return S', '_flatten_dofs ndarray')
+    _expect(tests[1][1][0], 'return S.flatten()', '_flatten_dofs view')
+    d = tests[2][1]
+    if len(d) != 2 or not isinstance(d[0], ast.FunctionDef):
+        raise TranslateError('_flatten_dofs dict branch')
+    _expect(d[0], 'def _flatten_helper(S, key):\n    if key in S and isinstance(S[key], DofsView):\n        return S[key].flatten()\n'
+                  '    raise NotImplementedError', '_flatten_dofs helper')
+    _expect(d[1], 'return np.unique(np.concatenate([_flatten_helper(S, key) for key in S]))', '_flatten_dofs dict')
+    if not isinstance(body[2], ast.Raise):
+        raise TranslateError('_flatten_dofs fallthrough')
+    return ('Definition gen_flatten_dict (views : list (list nat)) : list nat := sort_unique (concat views).'
+            '   (* np.unique(np.concatenate([...])) *)')
+
+
 def translate():
     tree = t2.parse(SRC)
     idx_def, enf = translate_enforce(t2.find_def(tree, 'enforce'))
-    parts = [translate_init_bc(t2.find_def(tree, '_init_bc'))]
+    parts = [translate_flatten_dofs(t2.find_def(tree, '_flatten_dofs')), translate_init_bc(t2.find_def(tree, '_init_bc'))]
     parts += translate_condense(t2.find_def(tree, 'condense'))
     parts += translate_solve(tree)
     parts += enf
